@@ -23,7 +23,7 @@ import bz2
 import logging
 import os
 import shutil
-import stat as statmod
+import sys
 import tempfile
 import time
 
@@ -202,11 +202,11 @@ def gen_scenario(rng, kind):
         extra = {}
         if kind.startswith("v"):
             if rng.random() < 0.6:
-                extra["NOTES"] = b"n\n"
+                extra["NOTES"] = "n\n"
             if rng.random() < 0.5:
-                extra["sub/x"] = b"x"
+                extra["sub/x"] = "x"
             if rng.random() < 0.3:
-                extra["sub/deep/y"] = b""
+                extra["sub/deep/y"] = ""
         sc["pre"].append({"cat": cat, "pf": old, "meta": gen_meta(rng, old), "extra": extra})
     # neighbours (few metadata files each): another version of the same package, another
     # package, another category
@@ -705,7 +705,7 @@ def judge(chk, res):
 
 
 # --------------------------------------------------------------------------- main
-QUICK = ["vinstall", "vreplace", "vuninstall", "binstall", "breplace", "buninstall", "vreplace"]
+QUICK = ["vinstall", "vreplace", "vuninstall", "binstall", "breplace", "buninstall"]
 
 
 def scenarios(chk):
@@ -730,12 +730,14 @@ def main(chk: Check):
     os.umask(0o022)
     work = tempfile.mkdtemp(prefix="verif_c29w_")
     results, py_bad = [], []
+    # objects torn by a simulated crash complain in __del__ (AtomicWriteFile.discard): not our business
+    hook, sys.unraisablehook = sys.unraisablehook, lambda *a: None
     try:
         for i, sc in enumerate(scenarios(chk)):
             wdir = os.path.join(work, f"s{i}")
             os.makedirs(wdir)
             try:
-                res = run_scenario(chk, wdir, sc, max_points=None if chk.thorough else 8)
+                res = run_scenario(chk, wdir, sc, max_points=None if chk.thorough else 6)
             except Broken as e:
                 chk.violation("correspondence", {"what": str(e), "scenario": sc}, no_input=True)
                 continue
@@ -747,6 +749,9 @@ def main(chk: Check):
             results.append(res)
             py_bad += judge(chk, res)
     finally:
+        import gc
+        gc.collect()
+        sys.unraisablehook = hook
         shutil.rmtree(work, ignore_errors=True)
     chk.cov["t_scenarios_s"] = round(time.time() - chk.t0, 1)
     evaluate(chk, ok, results, py_bad)
